@@ -217,7 +217,7 @@ def gen_doc(rng):
         s = s.replace(STX, '').replace(ETX, '').replace('\r\n', '\n').replace('\r', '\n') + '\n\n'
         s = s.expandtabs(4)
         import re
-        s = re.sub(r'(?<=\n) +\n', '\n', s)
+        s = re.sub(r'(?<![^\n]) +\n', '\n', s)
     return s
 
 
